@@ -586,5 +586,14 @@ func (cu *CellUnion) decode(d *decoder) {
 	*cu = make([]CellID, n)
 	for i := range *cu {
 		(*cu)[i].decode(d)
+		if d.err != nil {
+			return
+		}
+		// The methods of CellUnion index tables by the face and level of
+		// each cell id, so an id that is not a valid cell must not get through.
+		if !(*cu)[i].IsValid() {
+			d.err = fmt.Errorf("invalid cell id %#x at position %d", uint64((*cu)[i]), i)
+			return
+		}
 	}
 }
